@@ -64,7 +64,7 @@ PKGS = {  # abstract package id -> (import path, package name)
     "same": (MOD + "/alt2/foo", "foo"),     # same package NAME as orig: qualifier collision
     "third": (MOD + "/third/legacy", "legacy"),   # holds an (unconfigured) alias of the original type
 }
-MAX_SOLO = 48
+MAX_SOLO = 96
 GENERIC_POS = ("tparam", "targ", "tparamreal")     # the configured type lives in the source package; I1 may be generic
 SEM = ("pos", "other", "srckind", "target", "level", "place")      # dimensions the contract speaks about (TLC state)
 OBS = ("templ", "listing", "fmt", "kinds", "extra", "tdopt", "vis", "dststate")                                   # how the case is observed / spelled (TLC constants)
